@@ -205,6 +205,9 @@ class ModuleInfo(object):
         self.source = raw.decode('utf-8')
         try:
             self.tree = ast.parse(self.source, filename=path)
+            if "f'" in self.source or 'f"' in self.source:
+                self.tree = _FStrings().visit(self.tree)
+                ast.fix_missing_locations(self.tree)
         except SyntaxError as err:
             raise AnalysisError('cannot parse %s: %s' % (rel, err))
         self.is_package = os.path.basename(path) == '__init__.py'
@@ -539,6 +542,50 @@ class Index(object):
     def digests(self):
         return {m.rel: m.digest for m in self.modules.values()}
 
+
+
+class _FStrings(ast.NodeTransformer):
+    """f'{a}-{b:>5s}'  ->  '{a}-{b:>5s}'.format(a=a, b=b): the two spellings
+    format the same values the same way; the rules read templates in the
+    str.format spelling.  Only for replacement fields whose format spec is a
+    constant (no nested fields); anything else is left as written."""
+
+    def visit_JoinedStr(self, node):
+        for val in node.values:
+            if isinstance(val, ast.FormattedValue):
+                val.value = self.visit(val.value)   # not the format spec
+        parts = []
+        kws = []
+        used = {}
+        for val in node.values:
+            if isinstance(val, ast.Constant) and isinstance(val.value, str):
+                parts.append(val.value.replace('{', '{{').replace('}', '}}'))
+                continue
+            if not isinstance(val, ast.FormattedValue):
+                return node
+            spec = ''
+            if val.format_spec is not None:
+                if not (isinstance(val.format_spec, ast.JoinedStr) and all(
+                        isinstance(v, ast.Constant)
+                        for v in val.format_spec.values)):
+                    return node
+                spec = ':' + ''.join(v.value for v in val.format_spec.values)
+            conv = {-1: '', 115: '!s', 114: '!r', 97: '!a'}.get(
+                val.conversion)
+            if conv is None:
+                return node
+            text = ast.unparse(val.value)
+            if text not in used:
+                name = val.value.id if isinstance(val.value, ast.Name) and \
+                    val.value.id not in [k.arg for k in kws] else \
+                    '_f%d' % len(kws)
+                used[text] = name
+                kws.append(ast.keyword(arg=name, value=val.value))
+            parts.append('{%s%s%s}' % (used[text], conv, spec))
+        new = ast.Call(func=ast.Attribute(value=ast.Constant(
+            value=''.join(parts)), attr='format', ctx=ast.Load()),
+            args=[], keywords=kws)
+        return ast.copy_location(new, node)
 
 def dotted_parts(expr):
     """['a','b','c'] for a.b.c ; None when not a pure dotted name."""
